@@ -193,10 +193,10 @@ struct Op {
   int form;
 };
 
-void admit(int th, char* p, size_t bytes, size_t align, bool has_dtor) {
+int admit(int th, char* p, size_t bytes, size_t align, bool has_dtor) {
   if (align && ((uintptr_t)p & (align - 1))) dsched::fail("aligned", "allocate(%zu,%zu) returned %p", bytes, align, (void*)p);
   W->requested += bytes;
-  if (bytes == 0) return;
+  if (bytes == 0) return -1;
   if (!p) dsched::fail("aligned", "allocate(%zu,%zu) returned null", bytes, align);
   size_t ps = W->pa.ps;
   uintptr_t page = (uintptr_t)p & ~(uintptr_t)(ps - 1);
@@ -207,6 +207,7 @@ void admit(int th, char* p, size_t bytes, size_t align, bool has_dtor) {
     int owner = pit->second.thread;
     if (owner != th && W->running[owner])
       dsched::fail("one-resource-per-thread", "thread %d got block %p inside a page obtained by thread %d which is still running", th, (void*)p, owner);
+    if (owner != th) dsched::label("block_in_page_inherited_from_finished_thread");
     placed = true;
   } else {
     auto it = W->up.live.upper_bound((uintptr_t)p);
@@ -236,6 +237,7 @@ void admit(int th, char* p, size_t bytes, size_t align, bool has_dtor) {
     if (i == bytes / 2) dsched::point();  // filling is not atomic either
   }
   dsched::mix_hash(((uint64_t)th << 32) ^ (bytes * 131 + align));
+  return bi;  // (other threads may have appended blocks meanwhile: the fill above contains schedule points)
 }
 
 void run_ops(int th, const std::vector<Op>& ops) {
@@ -262,8 +264,7 @@ void run_ops(int th, const std::vector<Op>& ops) {
       admit(th, p, op.bytes, op.align, false);
     } else if (op.kind == 1) {
       char* p = (char*)W->res->allocate<alignof(TObj)>(sizeof(TObj));
-      admit(th, p, sizeof(TObj), alignof(TObj), true);
-      int bi = (int)W->blocks.size() - 1;
+      int bi = admit(th, p, sizeof(TObj), alignof(TObj), true);
       W->dtor_reg[p] = bi;
       W->dtor_stack[th].push_back(bi);
       W->dtors_pending++;
@@ -283,8 +284,7 @@ void run_ops(int th, const std::vector<Op>& ops) {
       ::google::protobuf::Arena& arena = *W->swiss;
       TObj* o = ::google::protobuf::Arena::Create<TObj>(&arena);
       char* p = (char*)o;
-      admit(th, p, sizeof(TObj), alignof(TObj), true);
-      int bi = (int)W->blocks.size() - 1;
+      int bi = admit(th, p, sizeof(TObj), alignof(TObj), true);
       W->dtor_reg[p] = bi;
       W->dtor_stack[th].push_back(bi);
       W->dtors_pending++;
